@@ -47,6 +47,12 @@ def main():
     print("SEED %s property=%s tier=%s: %s%s" % (os.path.basename(d.rstrip("/")), pid, tier,
           "CAUGHT" if caught else "MISSED (exit %d)" % p.returncode,
           " with concrete failing input" if concrete else ""))
+    if "--record" in sys.argv:
+        meta.setdefault("check_results", {})[tier] = {
+            "caught": caught, "concrete_failing_input": bool(concrete),
+            "lines": [l for l in lines if l.startswith(("VIOLATION", "KNOWN-FINDING"))][:5]}
+        meta["caught_by"] = ("./check %s %s" % (pid, tier)) if caught else meta.get("caught_by")
+        json.dump(meta, open(os.path.join(d, "meta.json"), "w"), indent=1)
     return 0 if caught else 1
 
 
